@@ -215,13 +215,29 @@ theorem selectors_honour_request :
     symmetricFormat 0 = kfRAW ∧ symmetricFormat kfRAW = kfRAW ∧ symmetricFormat kfTransparent = kfTransparent := by
   decide
 
-/-- 10b. the register builders never panic in their own code: a panic is one of
-    `x509.MarshalPKCS8PrivateKey` on the caller's own key. -/
-theorem register_panic_only (C : CryptoOps) (kf : Nat) (ver : Nat × Nat) (key : AnyKey C) (m : String)
-    (h : register C kf ver key = .panic m) : ∃ pk, C.marshalPKCS8 pk = .panic m :=
-  Key.register_panic_only C kf ver key m h
+/-- 10b. whatever priority a selector gives to several requested formats is irrelevant to C14: the theorems
+    of section 4 hold for every `admissible` choice — a requested format that exists for the kind of key, the
+    documented default of the kind when none is requested — and the selector of HEAD is admissible for every mask. -/
+theorem selectors_admissible (k : KeyKind) (kf : Nat) : admissible k kf (selectFormat k kf) = true :=
+  selectFormat_admissible k kf
 
-/-- 10c. an RSA private key that has not exactly two primes is refused in the transparent format (d693174). -/
+/-- what `admissible` says on a few masks: a single requested format is the only choice; a format that does
+    not exist for the kind is ignored; nothing requested = the default; two requested = either. -/
+example : admissible .rsaPriv kfPKCS8 kfPKCS8 = true ∧ admissible .rsaPriv kfPKCS8 kfPKCS1 = false ∧
+    admissible .rsaPriv kfSEC1 kfPKCS1 = true ∧ admissible .rsaPriv kfSEC1 kfTransparent = false ∧
+    admissible .ecPub 0 kfX509 = true ∧ admissible .ecPub 0 kfTransparent = false ∧
+    admissible .ecPriv (kfPKCS8 ||| kfTransparent) kfPKCS8 = true ∧
+    admissible .ecPriv (kfPKCS8 ||| kfTransparent) kfTransparent = true ∧
+    admissible .ecPriv (kfPKCS8 ||| kfTransparent) kfSEC1 = false := by decide
+
+/-- 10c. the register builders never panic in their own code, in any format of the kind of key: a panic is
+    one of `x509.MarshalPKCS1PrivateKey` / `x509.MarshalPKCS8PrivateKey` on the caller's OWN key (no law about
+    the standard library is used). -/
+theorem register_panic_only (C : CryptoOps) (f : Nat) (ver : Nat × Nat) (key : AnyKey C)
+    (hf : f ∈ key.kind.formats) (m : String) (h : registerF C f ver key = .panic m) : StdlibPanicOn C key m :=
+  registerF_panic_only C f ver key hf m h
+
+/-- 10d. an RSA private key that has not exactly two primes is refused in the transparent format (d693174). -/
 theorem rsa_multiprime_refused (C : CryptoOps) (kf : Nat) (k : C.RsaPriv)
     (hlen : bitLen (C.rsaPrivParts k).n ≤ maxInt32) (hf : rsaPrivFormat kf = kfTransparent)
     (hp : (C.rsaPrivParts k).primes.length ≠ 2) : ∃ e, registerRsaPriv C kf k = .err e :=
@@ -248,7 +264,7 @@ theorem ec_priv_transparent_repr (C : CryptoOps) (kf : Nat) (ver : Nat × Nat) (
       else
         plainKB fTransparentECDSAPrivateKey 0 algECDSA (curveBitlen (C.ecPrivCurve k))
           { ecdsaPriv := some { curve := C.ecPrivCurve k, d := C.ecPrivD k } })) := by
-  unfold registerEcPriv
+  unfold registerEcPriv registerEcPrivF
   simp only [hc, hf]
   cases verGE13 ver <;> simp [kfTransparent, kfSEC1, kfPKCS8]
 
@@ -262,77 +278,140 @@ theorem ec_pub_transparent_repr (C : CryptoOps) (kf : Nat) (ver : Nat × Nat) (k
       else
         plainKB fTransparentECDSAPublicKey 1 algECDSA (curveBitlen (C.ecPubCurve k))
           { ecdsaPub := some { curve := C.ecPubCurve k, q := C.ecMarshal k } })) := by
-  unfold registerEcPub
+  unfold registerEcPub registerEcPubF
   simp only [hc, hf]
   cases verGE13 ver <;> simp [kfTransparent, kfX509]
 
-/-! ## 4. Register, transport, extract -/
+/-! ## 4. Register, transport, extract
 
-/-- the keys for which the property can hold: an ECDSA private key has its scalar in `[1, n-1]` (anything
-    else is not a key of the curve; the accessor refuses it in the transparent format). -/
-def Valid {C : CryptoOps} : AnyKey C → Prop
-  | .ecPriv k => 0 < C.ecPrivD k ∧ C.ecPrivD k < C.curveOrder (C.ecPrivCurve k)
-  | _ => True
+`Valid key` (Lemmas): what the standard library itself calls a key — an RSA private key passes `Validate`, an RSA
+public key is one the x509 parsers accept, the scalar of an ECDSA private key is in `[1, n-1]`.
+`AcceptableF f key`: the three reasons for which a builder may refuse a valid key (a length that does not fit an
+int32; a curve other than the four NIST ones; more than two primes in the transparent format).
+`StdlibPanicOn C key m`: `MarshalPKCS1PrivateKey` / `MarshalPKCS8PrivateKey` applied to THIS key panicked. -/
 
-/-- 12. extraction from the registered object gives back the key: every kind, every format selector,
+/-- 12. extraction from the registered object gives back the key: every kind, every format of the kind,
     every version. -/
-theorem extract_register (C : Crypto) (kf : Nat) (ver : Nat × Nat) (key : AnyKey C.toCryptoOps)
-    (hv : Valid key) (o : Obj) (h : register C.toCryptoOps kf ver key = .ok o) :
+theorem extract_register (C : Crypto) (f : Nat) (ver : Nat × Nat) (key : AnyKey C.toCryptoOps)
+    (hv : Valid key) (o : Obj) (h : registerF C.toCryptoOps f ver key = .ok o) :
     extract C.toCryptoOps key (respOf o) = .ok key.content := by
   cases key with
-  | rsaPriv k => simp [extract, AnyKey.content, rsaPriv_extract C kf k o h]
-  | rsaPub k => simp [extract, AnyKey.content, rsaPub_extract C kf k o h]
-  | ecPriv k => simp [extract, AnyKey.content, ecPriv_extract C kf ver k o (fun _ => hv) h]
-  | ecPub k => simp [extract, AnyKey.content, ecPub_extract C kf ver k o h]
-  | sym alg v => simp [extract, AnyKey.content, sym_extract kf alg v o h]
+  | rsaPriv k => simp [extract, AnyKey.content, rsaPriv_extractF C f k o hv h]
+  | rsaPub k => simp [extract, AnyKey.content, rsaPub_extractF C f k o hv h]
+  | ecPriv k => simp [extract, AnyKey.content, ecPriv_extractF C f ver k o hv h]
+  | ecPub k => simp [extract, AnyKey.content, ecPub_extractF C f ver k o h]
+  | sym alg v => simp [extract, AnyKey.content, sym_extractF f alg v o h]
   | secret kind v => simp [extract, AnyKey.content, secret_extract kind v o h]
 
-/-- 13. C14: for every key of each kind (RSA keys with any number of primes included), every format
-    selector, every version, each of the three encodings: whenever the builder accepts the key, the key
-    extracted from the transported object is the original. -/
-theorem key_roundtrip (C : Crypto) (kf : Nat) (ver : Nat × Nat) (enc : Enc) (key : AnyKey C.toCryptoOps)
-    (hv : Valid key) (o : Obj) (h : register C.toCryptoOps kf ver key = .ok o) :
-    roundtrip C.toCryptoOps kf ver enc key = .ok key.content := by
-  unfold roundtrip
+/-- 13. C14, soundness half: for every valid key of each kind, every format, every version, each of the
+    three encodings: whenever the builder accepts the key, the key extracted from the transported object is
+    the original. -/
+theorem key_roundtripF (C : Crypto) (f : Nat) (ver : Nat × Nat) (enc : Enc) (key : AnyKey C.toCryptoOps)
+    (hv : Valid key) (o : Obj) (h : registerF C.toCryptoOps f ver key = .ok o) :
+    roundtripF C.toCryptoOps f ver enc key = .ok key.content := by
+  unfold roundtripF
   rw [h]
   simp only [transportObj_ok]
-  exact extract_register C kf ver key hv o h
+  exact extract_register C f ver key hv o h
 
-/-- 13a. in all cases, without any hypothesis on the key: the round trip gives the key, or the builder
-    refused it with an error (marshal error of the standard library, unsupported curve, length overflow,
-    an RSA key without exactly two primes in the transparent format), or the standard library panicked
-    while marshalling the caller's own key, or the key is an ECDSA key whose scalar is out of range and
-    the accessor refused it — never another key. -/
+/-- the same through the selector of HEAD applied to a format mask. -/
+theorem key_roundtrip (C : Crypto) (kf : Nat) (ver : Nat × Nat) (enc : Enc) (key : AnyKey C.toCryptoOps)
+    (hv : Valid key) (o : Obj) (h : register C.toCryptoOps kf ver key = .ok o) :
+    roundtrip C.toCryptoOps kf ver enc key = .ok key.content :=
+  key_roundtripF C _ ver enc key hv o h
+
+/-- 13a. C14, ACCEPTANCE half: a valid key is registered in every format of its kind unless one of the three
+    reasons of `AcceptableF` applies.  (A model — or a library — whose builders refused P-521, or every RSA
+    public key, does not satisfy this.) -/
+theorem register_accepts (C : Crypto) (f : Nat) (ver : Nat × Nat) (key : AnyKey C.toCryptoOps)
+    (hf : f ∈ key.kind.formats) (hv : Valid key) (ha : AcceptableF f key) :
+    ∃ o, registerF C.toCryptoOps f ver key = .ok o :=
+  registerF_accepts C f ver key hf hv ha
+
+/-- 13b. C14: for EVERY selector that makes an admissible choice (whatever its priorities), every format mask,
+    version and encoding, every valid key that is not refused for one of the three reasons comes back equal. -/
+theorem key_roundtrip_any_selector (C : Crypto) (sel : KeyKind → Nat → Nat)
+    (hsel : ∀ k kf, admissible k kf (sel k kf) = true)
+    (kf : Nat) (ver : Nat × Nat) (enc : Enc) (key : AnyKey C.toCryptoOps)
+    (hv : Valid key) (ha : AcceptableF (sel key.kind kf) key) :
+    roundtripF C.toCryptoOps (sel key.kind kf) ver enc key = .ok key.content := by
+  obtain ⟨o, ho⟩ := registerF_accepts C _ ver key (admissible_mem _ kf _ (hsel key.kind kf)) hv ha
+  exact key_roundtripF C _ ver enc key hv o ho
+
+/-- 13c. with the selector of HEAD. -/
+theorem key_roundtrip_accepted (C : Crypto) (kf : Nat) (ver : Nat × Nat) (enc : Enc)
+    (key : AnyKey C.toCryptoOps) (hv : Valid key) (ha : AcceptableF (selectFormat key.kind kf) key) :
+    roundtrip C.toCryptoOps kf ver enc key = .ok key.content :=
+  key_roundtrip_any_selector C selectFormat selectFormat_admissible kf ver enc key hv ha
+
+/-- 13d. the builders and a valid key: never a panic. -/
+theorem valid_key_never_panics (C : Crypto) (f : Nat) (ver : Nat × Nat) (key : AnyKey C.toCryptoOps)
+    (hf : f ∈ key.kind.formats) (hv : Valid key) (m : String) : registerF C.toCryptoOps f ver key ≠ .panic m :=
+  fun h => valid_no_stdlib_panic C key hv m (registerF_panic_only _ f ver key hf m h)
+
+/-- 13e. C14 in one statement, for a valid key: the round trip gives the key, or the builder refused it with
+    an error AND one of the three reasons applies — never another key, never a panic, never a refusal without
+    a reason. -/
 theorem key_roundtrip_or_refused (C : Crypto) (kf : Nat) (ver : Nat × Nat) (enc : Enc)
-    (key : AnyKey C.toCryptoOps) :
+    (key : AnyKey C.toCryptoOps) (hv : Valid key) :
     roundtrip C.toCryptoOps kf ver enc key = .ok key.content ∨
-    (∃ e, register C.toCryptoOps kf ver key = .err e ∧ roundtrip C.toCryptoOps kf ver enc key = .err e) ∨
-    (∃ pk m, C.marshalPKCS8 pk = .panic m) ∨
-    (¬ Valid key ∧ ∃ e, roundtrip C.toCryptoOps kf ver enc key = .err e) := by
+    (¬ AcceptableF (selectFormat key.kind kf) key ∧
+      ∃ e, register C.toCryptoOps kf ver key = .err e ∧ roundtrip C.toCryptoOps kf ver enc key = .err e) := by
   cases h : register C.toCryptoOps kf ver key with
-  | err e => exact Or.inr (Or.inl ⟨e, rfl, by simp [roundtrip, h]⟩)
+  | ok o => exact Or.inl (key_roundtrip C kf ver enc key hv o h)
+  | panic m => exact absurd h (valid_key_never_panics C _ ver key (selectFormat_mem _ kf) hv m)
+  | err e =>
+    refine Or.inr ⟨fun ha => ?_, e, rfl, ?_⟩
+    · obtain ⟨o, ho⟩ := registerF_accepts C _ ver key (selectFormat_mem _ kf) hv ha
+      have h' : registerF C.toCryptoOps (selectFormat key.kind kf) ver key = .err e := h
+      rw [ho] at h'
+      cases h'
+    · have h' : registerF C.toCryptoOps (selectFormat key.kind kf) ver key = .err e := h
+      simp [roundtrip, roundtripF, h']
+
+/-- 13f. and for ANY key (valid or not) the builder returns an object, an error, or — only for a key that is
+    not valid — the standard library panicked while marshalling that very key. -/
+theorem register_outcomes (C : Crypto) (f : Nat) (ver : Nat × Nat) (key : AnyKey C.toCryptoOps)
+    (hf : f ∈ key.kind.formats) :
+    (∃ o, registerF C.toCryptoOps f ver key = .ok o) ∨ (∃ e, registerF C.toCryptoOps f ver key = .err e) ∨
+    (¬ Valid key ∧ ∃ m, registerF C.toCryptoOps f ver key = .panic m ∧ StdlibPanicOn C.toCryptoOps key m) := by
+  cases h : registerF C.toCryptoOps f ver key with
+  | ok o => exact Or.inl ⟨o, rfl⟩
+  | err e => exact Or.inr (Or.inl ⟨e, rfl⟩)
   | panic m =>
-    obtain ⟨pk, hpk⟩ := Key.register_panic_only _ kf ver key m h
-    exact Or.inr (Or.inr (Or.inl ⟨pk, m, hpk⟩))
+    have hp := registerF_panic_only _ f ver key hf m h
+    exact Or.inr (Or.inr ⟨fun hv => valid_no_stdlib_panic C key hv m hp, m, rfl, hp⟩)
+
+/-- 13g. the escape clause is not empty, and it is about the key handed in: an `rsa.PrivateKey` with a single
+    prime (`Validate` rejects it) makes the builder panic in the default format (`x509.MarshalPKCS1PrivateKey`
+    indexes `Primes[1]`), is an error in the PKCS#8 format (Go ≥ 1.24 validates first) and in the transparent one. -/
+def onePrime : Toy.RsaPriv := { n := 35, d := 5, primes := [35] }
+
+theorem invalid_rsa_key_can_panic :
+    ¬ Valid (C := Toy.ops) (.rsaPriv onePrime) ∧
+    (∃ m, registerF Toy.ops kfPKCS1 (1, 4) (.rsaPriv onePrime) = .panic m) ∧
+    (∃ e, registerF Toy.ops kfPKCS8 (1, 4) (.rsaPriv onePrime) = .err e) ∧
+    (∃ e, registerF Toy.ops kfTransparent (1, 4) (.rsaPriv onePrime) = .err e) :=
+  ⟨by show ¬ (Toy.rsaValidate onePrime = true); decide, ⟨_, rfl⟩, ⟨_, rfl⟩, ⟨_, rfl⟩⟩
+
+/-- 13h. an ECDSA private key whose scalar is not in `[1, n-1]`, registered in the transparent format, is
+    refused by the accessor (e2e4a08) — not returned as another key. -/
+theorem ec_invalid_scalar_refused (C : Crypto) (ver : Nat × Nat) (enc : Enc) (k : C.EcPriv)
+    (hr : ¬ C.toCryptoOps.ScalarIn k) :
+    ∃ e, roundtripF C.toCryptoOps kfTransparent ver enc (.ecPriv k) = .err e := by
+  cases h : registerF C.toCryptoOps kfTransparent ver (.ecPriv k) with
+  | err e => exact ⟨e, by simp [roundtripF, h]⟩
+  | panic m =>
+    exact absurd (registerF_panic_only _ kfTransparent ver (.ecPriv k) (by simp [AnyKey.kind, KeyKind.formats]) m h) (by
+      intro hp
+      simp only [registerF, registerEcPrivF, kfTransparent, kfSEC1, kfPKCS8] at h
+      split at h
+      · cases h
+      · simp only [show ¬ (1 : Nat) = 16 by decide, show ¬ (1 : Nat) = 4 by decide, if_false, if_true] at h
+        split at h <;> cases h)
   | ok o =>
-    by_cases hv : Valid key
-    · exact Or.inl (key_roundtrip C kf ver enc key hv o h)
-    · cases key with
-      | ecPriv k =>
-        by_cases hf : ecdsaPrivFormat kf = kfTransparent
-        · refine Or.inr (Or.inr (Or.inr ⟨hv, .range, ?_⟩))
-          have := ecPriv_extract_invalid C kf ver k o hf hv h
-          simp only [register] at h
-          simp [roundtrip, register, h, transportObj_ok, extract, this]
-        · left
-          have := ecPriv_extract C kf ver k o (fun hc => absurd hc hf) h
-          simp only [register] at h
-          simp [roundtrip, register, h, transportObj_ok, extract, this, AnyKey.content]
-      | rsaPriv k => exact absurd trivial hv
-      | rsaPub k => exact absurd trivial hv
-      | ecPub k => exact absurd trivial hv
-      | sym a v => exact absurd trivial hv
-      | secret a v => exact absurd trivial hv
+    have := ecPriv_extract_invalid C ver k o hr h
+    exact ⟨.range, by simp [roundtripF, h, transportObj_ok, extract, this]⟩
 
 /-- 14. the dynamically typed accessors (`CryptoPrivateKey`, `CryptoPublicKey`, `GetResponsePayload.
     PrivateKey/PublicKey`) return the same key as the typed ones, on every key block. -/
@@ -360,43 +439,41 @@ theorem old_register_can_panic (C : CryptoOps) (kf : Nat) (k : C.RsaPriv)
     (hp : (C.rsaPrivParts k).primes.length < 2) : ∃ m, registerRsaPrivOld C kf k = .panic m :=
   registerRsaPrivOld_panics C kf k hlen hf hp
 
-/-! ## 5. Non-vacuity: the laws of `Crypto` are satisfiable and the hypotheses of `key_roundtrip` hold -/
+/-! ## 5. Non-vacuity: the laws of `Crypto` are satisfiable and the hypotheses of the theorems hold -/
 
-/-- the toy standard library satisfies every law; every toy RSA key is accepted by the builders (moduli
-    below 2^(2^31)), so `key_roundtrip` applies to all of them. -/
-example (kf : Nat) (ver : Nat × Nat) (enc : Enc) (k : Toy.RsaPriv) (h : bitLen k.n ≤ maxInt32) :
+/-- the toy standard library satisfies every law; every valid two-prime toy RSA key (modulus below 2^(2^31))
+    comes back equal, for every format mask, version and encoding. -/
+example (kf : Nat) (ver : Nat × Nat) (enc : Enc) (k : Toy.RsaPriv) (hv : Toy.rsaValidate k = true)
+    (h : bitLen k.n ≤ maxInt32) (h2 : k.primes.length = 2) :
     roundtrip Toy.crypto.toCryptoOps kf ver enc (.rsaPriv k) = .ok (.rsaPriv k) := by
-  have hlen : ¬ bitLen (Toy.crypto.toCryptoOps.rsaPrivParts k).n > maxInt32 := by
-    show ¬ bitLen (k.n : Int) > maxInt32
-    omega
-  have hm : Toy.crypto.toCryptoOps.marshalPKCS8 (.rsa k) = .ok (3 :: Toy.serRsaPriv k) := rfl
-  have hpr : (Toy.crypto.toCryptoOps.rsaPrivParts k).primes = [(k.p : Int), (k.q : Int)] := rfl
-  cases hr : register Toy.crypto.toCryptoOps kf ver (.rsaPriv k) with
-  | ok o => exact key_roundtrip Toy.crypto kf ver enc (.rsaPriv k) trivial o hr
-  | err e =>
-    exfalso
-    simp only [register, registerRsaPriv, hlen, if_false, hm, hpr] at hr
-    split at hr
-    · cases hr
-    · split at hr
-      · cases hr
-      · split at hr <;> cases hr
-  | panic m =>
-    exfalso
-    simp only [register, registerRsaPriv, hlen, if_false, hm, hpr] at hr
-    split at hr
-    · cases hr
-    · split at hr
-      · cases hr
-      · split at hr
-        · cases hr
-        · rcases rsaPrivFormat_mem kf with h | h | h <;> contradiction
+  refine key_roundtrip_accepted Toy.crypto kf ver enc (.rsaPriv k) hv ⟨?_, fun _ => ?_⟩
+  · show bitLen (k.n : Int) ≤ maxInt32
+    exact h
+  · show (k.primes.map Int.ofNat).length = 2
+    simpa using h2
+
+/-- a three-prime toy key: accepted and returned equal in PKCS#1 and PKCS#8, refused in the transparent format. -/
+def threePrimes : Toy.RsaPriv := { n := 105, d := 5, primes := [3, 5, 7] }
+
+example : roundtripF Toy.ops kfPKCS1 (1, 4) .xml (.rsaPriv threePrimes) = .ok (.rsaPriv threePrimes) ∧
+    roundtripF Toy.ops kfPKCS8 (1, 0) .json (.rsaPriv threePrimes) = .ok (.rsaPriv threePrimes) ∧
+    (∃ e, registerF Toy.ops kfTransparent (1, 4) (.rsaPriv threePrimes) = .err e) ∧
+    Valid (C := Toy.ops) (.rsaPriv threePrimes) ∧ ¬ AcceptableF (C := Toy.ops) kfTransparent (.rsaPriv threePrimes) := by
+  have hv : Valid (C := Toy.ops) (.rsaPriv threePrimes) := by
+    show Toy.rsaValidate threePrimes = true
+    decide
+  refine ⟨key_roundtripF Toy.crypto _ _ _ _ hv _ rfl, key_roundtripF Toy.crypto _ _ _ _ hv _ rfl,
+    ⟨_, rfl⟩, hv, ?_⟩
+  intro h
+  have := h.2 rfl
+  revert this
+  decide
 
 /-- concrete instances, evaluated: an RSA key in the transparent format through JSON, an EC private key
     in the transparent format below and above 1.3, an EC public key through XML. -/
-example : roundtrip Toy.crypto.toCryptoOps kfTransparent (1, 4) .json (.rsaPriv { n := 35, d := 5, p := 5, q := 7 })
-    = .ok (.rsaPriv { n := 35, d := 5, p := 5, q := 7 }) :=
-  key_roundtrip Toy.crypto _ _ _ _ trivial _ rfl
+example : roundtrip Toy.crypto.toCryptoOps kfTransparent (1, 4) .json (.rsaPriv { n := 35, d := 5, primes := [5, 7] })
+    = .ok (.rsaPriv { n := 35, d := 5, primes := [5, 7] }) :=
+  key_roundtrip Toy.crypto _ _ _ _ (show Toy.rsaValidate { n := 35, d := 5, primes := [5, 7] } = true by decide) _ rfl
 
 /-- a valid EC private key (scalar 9 on P-256) in the transparent format, through binary. -/
 example : roundtrip Toy.crypto.toCryptoOps kfTransparent (1, 3) .ttlv (.ecPriv { crv := 1, d := 9 })
@@ -411,5 +488,10 @@ example : ∃ t, register Toy.ops kfTransparent (1, 3) (.ecPriv { crv := 1, d :=
 example : roundtrip Toy.crypto.toCryptoOps kfTransparent (1, 0) .xml (.ecPub { crv := 3, x := 2, y := 3 })
     = .ok (.ecPub { crv := 3, x := 2, y := 3 }) :=
   key_roundtrip Toy.crypto _ _ _ _ trivial _ rfl
+
+/-- every supported curve is accepted in every format of the kind (here: the toy P-521 key in SEC1). -/
+example : ∃ o, registerF Toy.crypto.toCryptoOps kfSEC1 (1, 4) (.ecPriv { crv := 3, d := 9 }) = .ok o :=
+  register_accepts Toy.crypto _ _ _ (by decide)
+    (show (0 : Int) < 9 ∧ (9 : Int) < Toy.curveOrder 13 by decide) (show curveSupported 13 = true by decide)
 
 end Kmip.C14
